@@ -4,7 +4,7 @@
      reset    ackerrors swallow                       AckCommandErrors setting; a ReplyPublishErrorHandler that returns nil is configured
      sent     c                                       caller c sent its command (SendWithReplies returned)
      handled  c n ok                                  the command handler processed c's command (n-th delivery), ok = no error
-     replypub c n                                     the reply for that delivery was published
+     replypub c n cmdstate                            the reply for that delivery was published; cmdstate = settlement of the command when Publish was entered
      cmdret   c n ok                                  what the processor returned to the router for that delivery
                                                       (ok => the command gets Acked, else Nacked)
      reply    c from n ok errtext                     caller c received a handler reply produced for caller `from`
@@ -24,7 +24,8 @@ TReset == Is("reset") /\ ackErrors' = Ev.ackerrors /\ swallow' = Ev.swallow /\ h
 TSent == Is("sent") /\ sent' = sent \cup {Ev.c} /\ UNCHANGED <<handled, published, fin, closed, endedSet>> /\ K /\ Adv
 THandled == Is("handled") /\ handled' = Upd(handled, <<Ev.c, Ev.n>>, Ev.ok)
             /\ UNCHANGED <<published, fin, closed, endedSet, sent>> /\ K /\ Adv
-TReplyPub == Is("replypub") /\ <<Ev.c, Ev.n>> \in DOMAIN handled /\ published' = published \cup {<<Ev.c, Ev.n>>}
+\* cmdstate: the command is still unsettled when its reply is handed to the publisher (it is acked only after the reply was published)
+TReplyPub == Is("replypub") /\ <<Ev.c, Ev.n>> \in DOMAIN handled /\ Ev.cmdstate = "none" /\ published' = published \cup {<<Ev.c, Ev.n>>}
              /\ UNCHANGED <<handled, fin, closed, endedSet, sent>> /\ K /\ Adv
 \* the command is acked / nacked as AckCommandErrors says, and only after the reply was published
 TCmdRet == /\ Is("cmdret") /\ <<Ev.c, Ev.n>> \in DOMAIN handled
